@@ -396,7 +396,12 @@ def refusal(viol):
             for i, m in enumerate(mins):
                 n += 1
                 if i == 2 and advance and mc.moves:
-                    mc.run(advance)  # the table is extended while the simulation is under way (some moves not due at this step)
+                    try:
+                        mc.run(advance)  # the table is extended while the simulation is under way (some moves not due at this step)
+                    except Exception as e:  # noqa: BLE001
+                        # the table built so far cannot be scheduled: an over-committing addition was accepted earlier
+                        viol.append({"signature": "C09/add_move/accepted-table-cannot-be-scheduled", "what": f"cycles={cycles}, minimum counts {mins[:i]} (intervals {ivs[:i]}) were accepted by add_move but run({advance}) raises {type(e).__name__}: {e}"[:300], "replay": {"cycles": cycles, "mins": mins[:i], "intervals": ivs[:i]}})
+                        break
                 before = list(mc.moves)
                 should_refuse = total + m > cycles
                 try:
